@@ -7,6 +7,7 @@ direct oracle: exactly that kind of change for exactly that service; attribute-l
 parameter changes; rows of print_dl_metrics.
 """
 import copy
+import os
 import io
 import json
 import xml.etree.ElementTree as ET
@@ -282,6 +283,89 @@ ATTR_VARIANTS = [("parameter renamed", dict(pname="p_val2"), 1), ("parameter typ
                  ("default value", dict(default=6), 16), ("name of the DOP", dict(dopname="d1x"), 10)]
 
 
+ESD_NAMES = ["esd", "2nd_gen_shared", "index", "class", "copy", "None"]
+
+
+def emit_family(L, esd_name="esd"):
+    """the layer of emit(L) as base variant BV, plus an ECU variant EV which inherits everything from it and an
+    ECU-SHARED-DATA layer holding two data objects"""
+    xml = emit(L)
+    esd = (f'<ECU-SHARED-DATAS><ECU-SHARED-DATA ID="ESD"><SHORT-NAME>{esd_name}</SHORT-NAME><DIAG-DATA-DICTIONARY-SPEC><DATA-OBJECT-PROPS>'
+           + "".join(f'<DATA-OBJECT-PROP ID="ESD.d{i}"><SHORT-NAME>sd{i}</SHORT-NAME><COMPU-METHOD><CATEGORY>IDENTICAL</CATEGORY></COMPU-METHOD>'
+                     '<DIAG-CODED-TYPE BASE-DATA-TYPE="A_UINT32" xsi:type="STANDARD-LENGTH-TYPE"><BIT-LENGTH>8</BIT-LENGTH></DIAG-CODED-TYPE>'
+                     '<PHYSICAL-TYPE BASE-DATA-TYPE="A_UINT32"/></DATA-OBJECT-PROP>' for i in (1, 2)) +
+           '</DATA-OBJECT-PROPS></DIAG-DATA-DICTIONARY-SPEC></ECU-SHARED-DATA></ECU-SHARED-DATAS>')
+    ev = ('<ECU-VARIANTS><ECU-VARIANT ID="EV"><SHORT-NAME>EV</SHORT-NAME><PARENT-REFS>'
+          '<PARENT-REF ID-REF="BV" DOCREF="DLC" DOCTYPE="CONTAINER" xsi:type="BASE-VARIANT-REF"/></PARENT-REFS></ECU-VARIANT></ECU-VARIANTS>')
+    assert xml.count("<BASE-VARIANTS>") == 1 and xml.count("</BASE-VARIANTS>") == 1
+    return xml.replace("<BASE-VARIANTS>", esd + "<BASE-VARIANTS>").replace("</BASE-VARIANTS>", "</BASE-VARIANTS>" + ev)
+
+
+def overview_rows(txt, names):
+    rows = {}
+    for line in txt.splitlines():
+        cells = [c.strip() for c in line.replace("│", "|").replace("┃", "|").split("|")]
+        for nm in names:
+            if nm in cells:
+                rows[nm] = [int(c) for c in cells if c.isdigit()]
+    return rows
+
+
+def family_checks(ck, rng, base, es):
+    """layers which inherit, layers without communication parameters, layer names which are no plain attribute names:
+    the overview of the list tool and of print_dl_metrics in both orders; an edit in the base variant seen through the
+    inheriting ECU variant"""
+    import contextlib
+    import odxtools.cli.list as list_tool
+    from odxtools.cli._print_utils import print_dl_metrics
+    docs = [hc.cpsubset_doc(), hc.cpsubset2_doc(), hc.cpspec_doc()]
+    esd_name = rng.choice(ESD_NAMES)
+    Lm = copy.deepcopy(base)
+    Lm["ncp"], Lm["ncp_dup"] = 3, 1
+    try:
+        db = hc.load_docs([emit_family(Lm, esd_name)] + docs)
+    except Exception as e:  # noqa
+        ck.note_broken(f"the three-layer document does not load: {type(e).__name__}: {e}")
+        return
+    nsvc = len(Lm["services"])
+    want = {esd_name: [0, 2, 0], "BV": [nsvc, 3, 4], "EV": [nsvc, 3, 4]}
+    rep = {"old": Lm, "family": True, "esd_name": esd_name}
+    by_name = {dl.short_name: dl for dl in db.diag_layers}
+    runs = [("list tool, all layers", lambda: list_tool.print_summary(db)),
+            ("print_dl_metrics, shared data last", lambda: print_dl_metrics([by_name["BV"], by_name["EV"], by_name[esd_name]])),
+            ("print_dl_metrics, shared data first", lambda: print_dl_metrics([by_name[esd_name], by_name["EV"], by_name["BV"]]))]
+    os.environ["COLUMNS"] = "250"  # (rich truncates cells to the width of the terminal)
+    for what, fn in runs:
+        buf = io.StringIO()
+        with contextlib.redirect_stdout(buf):
+            r2, e2, _ = cc.guarded(fn)
+        ck.count(("family", what, esd_name, json.dumps(Lm)))
+        rows = overview_rows(buf.getvalue(), list(want))
+        if e2 is not None or rows != want:
+            ck.violation(f"{what}: the overview shows {rows} (services, DOPs, communication parameters per layer)"
+                         + (f" and raised {type(e2).__name__}: {e2}" if e2 is not None else "") + f", the actual numbers are {want}",
+                         dict(rep, output=buf.getvalue()[-800:]))
+            return
+    # edits of the base variant, observed on the ECU variant which merely inherits
+    ev_old = by_name["EV"]
+    for label, new, exp in es[:10]:
+        try:
+            db_new = hc.load_docs([emit_family(new, esd_name)] + docs)
+        except Exception:  # noqa
+            continue
+        r = run_compare({dl.short_name: dl for dl in db_new.diag_layers}["EV"], ev_old)
+        ck.count(("family-edit", json.dumps(base), json.dumps(new)))
+        if isinstance(r, tuple):
+            ck.violation(f"compare_diagnostic_layers on the inheriting layer raised {r[1]}: {r[2]}", dict(rep, new=new, edit=label))
+            return
+        r_bv = run_compare({dl.short_name: dl for dl in db_new.diag_layers}["BV"], by_name["BV"])
+        key = lambda x: {k: sorted(map(str, x[k])) for k in ("new", "deleted", "renamed", "changed")}
+        if not isinstance(r_bv, tuple) and key(r) != key(r_bv):
+            ck.violation(f"edit '{label}' of the base variant: comparing the base variants reports {key(r_bv)}, comparing the ECU variants "
+                         f"which inherit all of it reports {key(r)}", dict(rep, new=new, edit=label, expect=exp))
+            return
+
+
 def run_compare(dl_new, dl_old):
     from odxtools.cli.compare import Comparison
     cmp_ = Comparison()
@@ -413,6 +497,8 @@ def main(argv=None):
                 ck.violation(f"print_dl_metrics reports {nums} (services, DOPs, communication parameters), actual numbers are {want_nums}",
                              {"old": Lm, "output": txt[-600:]})
                 break
+        if not ck.replay or layers[li][1][0][0] == "replay":
+            family_checks(ck, rng, base, [e for e in es if e[0] != "self"])
         if li % 4 == 0:
             ck.sample({"layer": base, "n_edits": len(es)})
     if ck.model_available() and pending:
